@@ -67,6 +67,9 @@ def side_conditions(es):
     exps = uf_apps.get('exp', [])
     for t in exps:
         lemmas.append(t > 0)
+        # the float constant e (numpy.e, sympy's E after lambdify) denotes Euler's number exp(1) ("reals for floats")
+        if z3.is_rational_value(t.arg(0)) and t.arg(0).numerator_as_long() == t.arg(0).denominator_as_long():
+            lemmas.append(t == symx.rv(symx.rationalize(math.e)))
     EXP = symx.UF('exp')
     if len(exps) <= 8:
         for i, a in enumerate(exps):
